@@ -708,3 +708,13 @@ Proof.
   split; [repeat constructor; simpl; intuition discriminate|].
   destruct C as [[] m t]; repeat split.
 Qed.
+
+(* F-C12-3: one version string twice with different attributes.  No comparator separates the two
+   records (they have one key), so even the repaired SortVersions returns them in input order *)
+Definition w_r1 : version := mk_ver sys_npm [49] [(ver_tags, [97])].
+Definition w_r2 : version := mk_ver sys_npm [49] [(ver_tags, [98])].
+Lemma repeated_string_witness :
+  Permutation [w_r1; w_r2] [w_r2; w_r1] /\ ver w_r1 = ver w_r2 /\ w_r1 <> w_r2 /\
+  sort_versions cfg_repaired all_oracle [w_r1; w_r2] = [w_r1; w_r2] /\
+  sort_versions cfg_repaired all_oracle [w_r2; w_r1] = [w_r2; w_r1].
+Proof. split; [apply perm_swap|]. repeat split. discriminate. Qed.
